@@ -418,7 +418,7 @@ def readonly(ctx, R="R-C04-readonly-input"):
             ctx.ok(R, f.loc(), "no in-place write through an alias of `%s` in %s or its callees" % (p, f.short))
         for w in ws:
             ctx.bad(R, f, w.stmt, "the caller's array `%s` may be modified in place (%s); a read-only input would raise and the caller's "
-                    "data would be changed" % (p, w.how), "input arrays are never written in place")
+                    "data would be changed" % (p, w.how), "input arrays are never written in place", robust=True)
     ctx.info["effect_summaries"] = {k: {"writes_params": {str(i): sorted(map(str, v)) for i, v in s[0].items()}, "returns_alias_of": sorted(s[1])}
                                     for k, s in eff._summ.items() if s[0] or s[1]}
     ctx.floor(R, len(n_funcs), 5)
